@@ -207,6 +207,7 @@ type vfC16World struct {
 	rr        *roundRobinHostPolicy
 	spawns    int64 // successful pool connects (each one starts a handleNodeConnected goroutine)
 	hostUps   int64 // HostUp calls that reached the policy (end of handleNodeConnected)
+	fills     int64 // pool fills under way (hooks p_fill_begin / p_fill_end)
 }
 
 // vfC16Policy wraps the round-robin policy to see when the session's asynchronous
@@ -253,6 +254,18 @@ func vfC16InstallScope() {
 				if p, ok := obj.(*hostConnPool); ok {
 					if w, ok := vfC16Worlds.Load(p.session); ok {
 						atomic.AddInt64(&w.(*vfC16World).spawns, 1)
+					}
+				}
+			case "p_fill_begin", "p_fill_end":
+				// fills under way, also those of pools the session has already dropped (a fill
+				// that fails reports its address as down after the pool is gone)
+				if p, ok := obj.(*hostConnPool); ok {
+					if w, ok := vfC16Worlds.Load(p.session); ok {
+						if point == "p_fill_begin" {
+							atomic.AddInt64(&w.(*vfC16World).fills, 1)
+						} else {
+							atomic.AddInt64(&w.(*vfC16World).fills, -1)
+						}
 					}
 				}
 			case "d_debounce":
@@ -627,7 +640,7 @@ func (w *vfC16World) idle() bool {
 			return false
 		}
 	}
-	return w.poolsIdle() && w.pendingUps() <= 0 && w.controlIdle()
+	return atomic.LoadInt64(&w.fills) <= 0 && w.poolsIdle() && w.pendingUps() <= 0 && w.controlIdle()
 }
 
 // connsTo: the driver's open connections to the node at abstract address a (pools and control).
@@ -698,7 +711,13 @@ func (w *vfC16World) settle(e *vfC16Exp, base int64, minWait, timerWait time.Dur
 	// a pool without connections starts a fill, and a fill that fails reports its address as
 	// down some 100 ms later.  Let that finish, then take the state that is recorded.
 	served := w.project(true).Served
-	for t1 := time.Now(); !w.idle() && time.Since(t1) < 2*time.Second; {
+	for t1 := time.Now(); time.Since(t1) < 2*time.Second; {
+		if w.idle() {
+			time.Sleep(2 * time.Millisecond) // (the failing fill reports right after its last hook)
+			if w.idle() {
+				break
+			}
+		}
 		time.Sleep(3 * time.Millisecond)
 	}
 	rec = w.project(false)
